@@ -55,6 +55,9 @@ type Writer struct {
 	CaseType  string
 	ShardSize int
 	Meta      Meta
+	// HasSkip: the case module defines check_skip (model says Unsupported/OutOfFuel for the
+	// input); such cases are excluded from both lists and counted as discarded by the driver.
+	HasSkip bool
 
 	cur    []Case
 	nshard int
@@ -141,6 +144,9 @@ func (w *Writer) flush() {
 	bw.WriteString("].\n")
 	bw.WriteString("Definition Mimpl := Eval vm_compute in mism check_impl cases.\n")
 	bw.WriteString("Definition Mspec := Eval vm_compute in mism check_spec cases.\n")
+	if w.HasSkip {
+		bw.WriteString("Definition Mskip := Eval vm_compute in mism (fun c => negb (check_skip c)) cases.\nPrint Mskip.\n")
+	}
 	bw.WriteString("Print Mimpl.\nPrint Mspec.\n")
 	bw.Flush()
 	f.Close()
